@@ -130,7 +130,11 @@ Definition fresh (c : cfg) : state :=
   {| meth := c_meth c;
      pe := {| p_bn := p_bn (c_pers c); p_net := p_net (c_pers c); p_masks := p_masks (c_pers c); p_layers := p_layers (c_pers c);
               p_samplers := map (fun s => {| s_names := s_names s; s_reach := s_reach s; s_alpha := s_alpha s; s_prec := s_prec s;
-                                             s_temp := if s_reach s then c_temp c else 1; s_theta := s_theta s |}) (p_samplers (c_pers c)) |};
+                                             s_temp := if s_reach s then c_temp c else 1;
+                                             (* every quantizer is built with the defaults of MPSBaseQtz.__init__ (graph.py) and
+                                                samples once in its constructor: soft-max, temperature 1, module in train mode *)
+                                             s_theta := match c_meth c with MPS => soft_nf 1 (s_alpha s) | _ => s_theta s end |})
+                                  (p_samplers (c_pers c)) |};
      tr := {| training := c_training c; disc := c_disc c; hard := c_hard c; smp := c_smp c; sn_temp := c_temp c;
               sn_thetas := map (fun s => map (fun _ => CInit) (s_alpha s)) (p_samplers (c_pers c)); ranges := None |} |}.
 
